@@ -36,7 +36,9 @@
 #include <time.h>
 #include <errno.h>
 
-extern void (*carquet_verif_sched)(int column_index, int point);
+/* hook H2; weak so that the harness still links (and runs unforced) against a tree without the hook */
+extern void (*carquet_verif_sched)(int column_index, int point) __attribute__((weak));
+#define HAVE_H2 (&carquet_verif_sched != NULL)
 extern uint32_t carquet_crc32(const uint8_t* data, size_t length);
 extern void carquet_dispatch_gather_i32(const int32_t* dict, const uint32_t* indices, int64_t count, int32_t* output);
 extern void carquet_dispatch_prefix_sum_i32(int32_t* values, int64_t count, int32_t initial);
@@ -241,11 +243,12 @@ static void case_dry_run(vh_case_t* c, int dry) {
     if (dry) dump_meta(&o, h.rd);
     int forced = !(sched[0] == '-' && sched[1] == 0);
     g_shared_file = h.rd->file;
-    if (dry) carquet_verif_sched = hook_record;
-    else if (forced) { sched_install(sched); carquet_verif_sched = hook_force; }
-    else carquet_verif_sched = NULL;
+    if (forced) sched_install(sched);
+    if (HAVE_H2) carquet_verif_sched = dry ? hook_record : forced ? hook_force : NULL;
+    else sb_puts(&o, " X=nohook");
     do_batches(&o, &h, bs, threads, projs, dry);
-    carquet_verif_sched = NULL; g_shared_file = NULL;
+    if (HAVE_H2) carquet_verif_sched = NULL;
+    g_shared_file = NULL;
     if (forced) {
         int realised = !g_abandon && g_cursor == g_slen;
         sb_printf(&o, " S=%lld", realised); sb_printf(&o, ":%lld", g_cursor); sb_printf(&o, ":%lld", g_slen);
